@@ -15,8 +15,12 @@ open Proto Ex
                                               selects it) on a path that does not exist / a file cut to 100 bytes
       `dl:<k>`                                the destination is a symbolic link: the sandbox's `dst/…` is created as
                                               `real/…` and `dst -> real` (k=1), `-> /tmp/@T@/real` (2), `-> ./real/` (3),
-                                              `-> mid -> real` (4), `-> ../@T@/real` (5); area dstlinkm: the resolving
+                                              `-> mid -> real` (4), `-> ../@T@/real` (5), a chain of 40 links (6: followed) or 41 (7:
+                                              `ELOOP`); area dstlinkm: the resolving
                                               model follows the link as the kernel does
+      `dp:<k>`                                the destination is `T/p/dst`: `p` does not exist (k=1; the sandbox's `dst/…`
+                                              items are dropped), `p -> q` a link to a real directory holding `dst/…`
+                                              (2), `p -> m -> q` (3), `p -> /tmp/@T@/q` (4)
       `r:2`                                   the archive is extracted twice into the same destination (`ok,err` …)
       `w:<n>`                                 write fault: during the extraction no file can grow beyond n bytes (the
                                               write of a longer payload stops after n bytes with an error)
@@ -52,14 +56,30 @@ def relPath (b : List Nat) : P := (splitSlash b).filter (· ≠ [])
 def fnv (l : List Nat) : Nat :=
   (l.foldl (fun (h : UInt32) b => (h ^^^ b.toUInt32) * 16777619) 2166136261).toNat
 
-/-- `dl:1`: the sandbox's `dst` subtree is created as `real`, and `dst` is a symbolic link to it -/
-def placeRel (dl : Bool) (p : P) : P :=
+/-- where the sandbox's `dst/…` physically lives: `real/…` when `dst` is a link (`dl`), `q/dst/…` when the destination
+    is `p/dst` with `p` a link to `q` (`dp` ≥ 2); with `dp:1` (`p` missing) it cannot exist (`none`) -/
+def placeRel (dl : Bool) (dp : Nat) (p : P) : Option P :=
   match p with
-  | c :: t => if dl && c == [100, 115, 116] then [114, 101, 97, 108] :: t else c :: t
-  | [] => []
+  | c :: t =>
+    if c == [100, 115, 116] then
+      if dl then some ([114, 101, 97, 108] :: t)
+      else if dp == 1 then none
+      else if dp ≥ 2 then some ([113] :: c :: t)
+      else some (c :: t)
+    else some (c :: t)
+  | [] => some []
 
-def applyInit (dl : Bool) (fs : FS) (f : List String) : Option FS :=
-  let relPath := fun (b : List Nat) => placeRel dl (relPath b)
+def applyInit (dl : Bool) (dp : Nat) (fs : FS) (f : List String) : Option FS :=
+  let place := fun (b : List Nat) => placeRel dl dp (relPath b)
+  -- items below a destination that cannot exist are skipped
+  let skipped := match f with
+    | "i" :: _ :: rel :: _ => (match hexBytes? rel with | some r => (place r).isNone | none => false)
+    | _ => false
+  let skippedTarget := match f with
+    | ["i", "h", _, tgt] => (match hexBytes? tgt with | some r => (place r).isNone | none => false)
+    | _ => false
+  if skipped || skippedTarget then some fs else
+  let relPath := fun (b : List Nat) => (place b).getD []
   match f with
   | ["i", "d", rel, mode] => do
     let r ← hexBytes? rel; let m ← octNat? mode
@@ -157,14 +177,16 @@ def step (_ : Unit) (line : String) : Unit × String :=
         let twice := items.contains "r:2"
         let dlItem := (items.filter (·.startsWith "dl:")).getLast?.getD ""
         let dl := dlItem != ""
-        let items := items.filter (fun w => !w.startsWith "v:" && !w.startsWith "r:" && !w.startsWith "dl:")
+        let dpItem := (items.filter (·.startsWith "dp:")).getLast?.getD ""
+        let dp : Nat := ((dpItem.drop 3).toString.toNat?).getD 0
+        let items := items.filter (fun w => !w.startsWith "v:" && !w.startsWith "r:" && !w.startsWith "dl:" && !w.startsWith "dp:")
         if !["v:", "v:x", "v:a", "v:am", "v:missing", "v:cut"].contains via then "bad-op" else
         let rec go (fs : FS) (es : List Entry) (lim : Option Nat) : List String → Option (FS × List Entry × Option Nat)
           | [] => some (fs, es.reverse, lim)
           | w :: ws =>
             let f := w.splitOn ":"
             match f with
-            | "i" :: _ => match applyInit dl fs f with | some fs' => go fs' es lim ws | none => none
+            | "i" :: _ => match applyInit dl dp fs f with | some fs' => go fs' es lim ws | none => none
             | "e" :: _ => match parseEntry zip f with | some e => go fs (e :: es) lim ws | none => none
             | ["w", n] => match n.toNat? with | some k => go fs es (some k) ws | none => none
             | _ => none
@@ -178,7 +200,25 @@ def step (_ : Unit) (line : String) : Unit × String :=
             else if dlItem == "dl:4" then
               (fs.put (sandbox ++ [bytes "mid"]) (.symlink (bytes "real"))).put dstRoot (.symlink (bytes "mid"))
             else if dlItem == "dl:5" then fs.put dstRoot (.symlink (bytes "../@T@/real"))
+            else if dlItem == "dl:6" || dlItem == "dl:7" then
+              -- dst -> c1 -> c2 -> … -> real: 40 links in all (followed) or 41 (ELOOP)
+              let n := if dlItem == "dl:6" then 40 else 41
+              let fs := (List.range (n - 1)).foldl (fun fs i =>
+                let tg := if i + 2 == n then "real" else "c" ++ toString (i + 2)
+                fs.put (sandbox ++ [bytes ("c" ++ toString (i + 1))]) (.symlink (bytes tg))) fs
+              fs.put dstRoot (.symlink (bytes "c1"))
             else if dl then fs.put dstRoot (.symlink (bytes "real")) else fs
+          -- dp:<k>: the destination is T/p/dst; p is missing (1), a link to the directory q (2), a link to m -> q (3),
+          -- an absolute link to q (4)
+          let pP := sandbox ++ [bytes "p"]
+          let fs :=
+            if dp ≥ 2 then
+              let fs := fs.put (sandbox ++ [bytes "q"]) (.dir 0o755)
+              if dp == 3 then (fs.put (sandbox ++ [bytes "m"]) (.symlink (bytes "q"))).put pP (.symlink (bytes "m"))
+              else if dp == 4 then fs.put pP (.symlink (bytes "/tmp/@T@/q"))
+              else fs.put pP (.symlink (bytes "q"))
+            else fs
+          let dstRoot := if dp ≥ 1 then pP ++ [bytes "dst"] else dstRoot
           let es := match lim with
             | none => es
             | some k => es.map fun e =>
